@@ -77,6 +77,14 @@ impl DependencyGraph {
         // As such we are keeping the cond var alive until the reference in the edge drops.
         unsafe { me.add_edge(from_id, database_key, to_id, cvar) };
 
+        #[cfg(salsa_rs_salsa_verif)]
+        crate::verif_proto::record(&[
+            crate::verif_proto::P::S("block_on"),
+            crate::verif_proto::P::T(from_id),
+            crate::verif_proto::P::K(database_key),
+            crate::verif_proto::P::T(to_id),
+        ]);
+
         // Release the mutex that prevents `database_key`
         // from completing, now that the edge has been added.
         drop(query_mutex_guard);
@@ -84,6 +92,13 @@ impl DependencyGraph {
         loop {
             if let Some(result) = me.wait_results.remove(&from_id) {
                 debug_assert!(!me.edges.contains_key(&from_id));
+                #[cfg(salsa_rs_salsa_verif)]
+                crate::verif_proto::record(&[
+                    crate::verif_proto::P::S("receive"),
+                    crate::verif_proto::P::T(from_id),
+                    crate::verif_proto::P::S("->"),
+                    crate::verif_proto::wait_result(result),
+                ]);
                 return result;
             }
             me = cvar.wait(me);
@@ -140,6 +155,13 @@ impl DependencyGraph {
     fn unblock_runtime(&mut self, id: ThreadId, wait_result: WaitResult) {
         let edge = self.edges.remove(&id).expect("not blocked");
         self.wait_results.insert(id, wait_result);
+
+        #[cfg(salsa_rs_salsa_verif)]
+        crate::verif_proto::record(&[
+            crate::verif_proto::P::S("wake"),
+            crate::verif_proto::P::T(id),
+            crate::verif_proto::wait_result(wait_result),
+        ]);
 
         // Now that we have inserted the `wait_results`,
         // notify the thread.
@@ -261,6 +283,19 @@ impl DependencyGraph {
             std::collections::hash_map::Entry::Occupied(mut entry) => {
                 // If we transfer to the same owner as before, return immediately as this is a no-op.
                 if entry.get() == &(new_owner_thread, new_owner) {
+                    #[cfg(salsa_rs_salsa_verif)]
+                    {
+                        let [o1, o2] = crate::verif_proto::owner(new_owner_id);
+                        crate::verif_proto::record(&[
+                            crate::verif_proto::P::S("transfer"),
+                            crate::verif_proto::P::T(current_thread),
+                            crate::verif_proto::P::K(query),
+                            crate::verif_proto::P::K(new_owner),
+                            o1,
+                            o2,
+                            crate::verif_proto::P::S("-> 0"),
+                        ]);
+                    }
                     return false;
                 }
 
@@ -350,9 +385,36 @@ impl DependencyGraph {
                 crate::tracing::debug!(
                     "block_on: thread {current_thread:?} is blocking on {new_owner:?} in thread {new_owner_thread:?}",
                 );
+                #[cfg(salsa_rs_salsa_verif)]
+                {
+                    let [o1, o2] = crate::verif_proto::owner(new_owner_id);
+                    crate::verif_proto::record(&[
+                        crate::verif_proto::P::S("transfer"),
+                        crate::verif_proto::P::T(current_thread),
+                        crate::verif_proto::P::K(query),
+                        crate::verif_proto::P::K(new_owner),
+                        o1,
+                        o2,
+                        crate::verif_proto::P::S("-> 1"),
+                    ]);
+                }
                 Self::block_on(me, current_thread, new_owner, new_owner_thread, guard);
                 return true;
             }
+        }
+
+        #[cfg(salsa_rs_salsa_verif)]
+        {
+            let [o1, o2] = crate::verif_proto::owner(new_owner_id);
+            crate::verif_proto::record(&[
+                crate::verif_proto::P::S("transfer"),
+                crate::verif_proto::P::T(current_thread),
+                crate::verif_proto::P::K(query),
+                crate::verif_proto::P::K(new_owner),
+                o1,
+                o2,
+                crate::verif_proto::P::S("-> 0"),
+            ]);
         }
 
         false
